@@ -48,6 +48,7 @@ Print Assumptions free_space_exact.
 Definition target (a : astate) (o : pop) : N :=
   match o with
   | PInsert _ => a_first_free a 0
+  | PInsertAt i _ => if a_available a i then i else a_first_free a 0
   | PUpdate i _ _ | PMark i | PApply i | PRollback i | PGet i => i
   end.
 
@@ -67,6 +68,14 @@ Theorem read_back_identical : forall a b,
 Proof. exact a_read_back. Qed.
 Print Assumptions read_back_identical.
 
+(** The same for the insert used by redo / undo, which asks for the slot recorded in the log. *)
+Theorem read_back_identical_at : forall a b i0 i, snd (astep a (PInsertAt i0 b)) = OInserted i ->
+  snd (astep (fst (astep a (PInsertAt i0 b))) (PGet i)) = OTuple b /\
+  (a_at a i = None \/ a_at a i = Some None) /\
+  (a_available a i0 = true -> i = i0).
+Proof. exact a_read_back_at. Qed.
+Print Assumptions read_back_identical_at.
+
 (** Slot reuse: an insert only ever takes a slot that holds no row (empty after
     an applied delete, or one past the end) — never a live or delete-marked row. *)
 Theorem slot_reuse_sound : forall a b i, snd (astep a (PInsert b)) = OInserted i ->
@@ -85,7 +94,7 @@ Print Assumptions rollback_update_always_fits.
 
 (** Non-vacuity: a reachable full page with a hole in the middle. *)
 Example c15_nonvacuous :
-  let ops := [PInsert [1;2;3]; PInsert [4;5]; PInsert [6]; PUpdate 1 [7;8;9;10] false; PMark 0; PApply 0; PInsert [11]] in
+  let ops := [PInsert [1;2;3]; PInsert [4;5]; PInsert [6]; PUpdate 1 [7;8;9;10] false; PMark 0; PApply 0; PInsertAt 0 [11]] in
   forallb op_ok ops = true /\
   snd (pstep (prun ops pinit) (PGet 1)) = OTuple [7;8;9;10] /\
   snd (pstep (prun ops pinit) (PGet 0)) = OTuple [11] /\
